@@ -172,7 +172,8 @@ def enc_err(e, with_vals=True):
 
 def canon_path(p):
     if isinstance(p, str):
-        return ("str", p)
+        # the "__require_all__" marker; its content is opaque (crumb dropping may delete a character)
+        return ("str",)
     return tuple(canon_key(k) for k in p)
 
 
@@ -208,7 +209,7 @@ def canon_err(e, level=1):
 
 def canon_jpath(p):
     if isinstance(p, dict):
-        return ("str", p["str"])
+        return ("str",)
     return tuple(canon_key(dec_key(k)) for k in p)
 
 
